@@ -137,6 +137,9 @@ def roundtrip(L, notes, include, extra_off_pairs=((None,), (("drop", "drop"),)),
                 g = list(L.group_notes(rnotes, **group_kwargs(L, include, mode, join, pair)))
             except L.Orphaned as e:
                 raise Violation(f"group_notes on {show(notes)} with {opts()} raised OrphanedNoteException({e}) although no orphan falls under a RAISE policy")
+            except Exception as e:  # not documented: let it escape, but name the input
+                e.add_note(f"input: group_notes on {show(notes)} with {opts()}")
+                raise
             for pol in pols:
 
                 def what(pol=pol, opts=opts):
@@ -146,6 +149,9 @@ def roundtrip(L, notes, include, extra_off_pairs=((None,), (("drop", "drop"),)),
                     raw = list(L.ungroup_notes(g, orphaned_notes=L.POL[pol])) if pol else list(L.ungroup_notes(iter(g)))
                 except L.Orphaned as e:
                     raise Violation(f"{what()} raised OrphanedNoteException({e}) although group_notes never puts a note inside a joined hold")
+                except Exception as e:  # not documented: let it escape, but name the input
+                    e.add_note(f"input: {what()}")
+                    raise
                 compare(plain(L, raw, what), exp, by_type, what)
                 n += 1
     return n, M
